@@ -541,7 +541,6 @@ func identityKeys(g *gen.G, k blsKey) []crypto.PublicKey {
 // numIdentityKinds is len(identityKeys(...)).
 const numIdentityKinds = 8
 
-
 // ageHasher gives a hasher object a short generated history before it is handed to the code under test: writes whose
 // lengths sit around the block size (so that the very first write of a new object may fill the sponge exactly), resets,
 // ComputeHash and SumHash calls.  ComputeHash "returns the hash output regardless of the existing hash state", so the
